@@ -17,7 +17,7 @@ from pmc.ref import lexer as L
 ID = 'C18'
 TITLE = 'Constant quoting, evaluation and typing are consistent with the notation'
 
-SIGMA_STR = ['"', '\\', 'a', ' ', '\n', '\t', '\x00', 'é', ' ', '(', ')', ':', '~', '/', ',', '^', '#', '\x0b', '\x1f', 'u', '\U0001F600']
+SIGMA_STR = ['"', '\\', 'a', ' ', '\n', '\t', '\x00', 'é', ' ', '(', ')', ':', '~', '/', ',', '^', '#', '\x0b', '\x1f', 'u', '\U0001F600', '\u0301']
 SIGMA_NUM = ['0', '1', '9', '-', '+', '.', 'e', 'E', '"', 'a', 'N', 'I', 'n', 't', 'r', 'u', 'l', 'f', 's', 'x', ' ']
 WORDS = ['NaN', 'Infinity', '-Infinity', 'true', 'false', 'null', 'nan', 'inf', '[]', '{}', '[1]', '{"a":1}', '1e999', '-0', '0.0', '1E5', '1e-5',
          '01', '1.', '.5', '+1', '0x10', '1_000', '\uff11', '\u0663', ' 1', '1 ', '1\n', '"a', 'a"', '"a"b"', '"\\u00e9"', '"\\x"', '"a\nb"', '""', '"', '1a', '2008-01-01', 'trueish', 'nullx', '1.2.3',
